@@ -90,7 +90,16 @@ def accessors(rep, cfg, r, rng):
         rep.violation("tsol-fromStates", "%s: solidificationTimes(fromStates=True) differs from the recorded ones" % (cfg["shape"],), dict(config=cfg))
     exp_Tn = np.where(mask & ~late, st["T_nucleation"], np.nan)
     if not nan_eq(Tn_s, exp_Tn):
-        rep.violation("Tnuc-fromStates pre-step", "%s: nucleationTemperatures(fromStates=True) returns the stored temperature one column before nucleation (e.g. %r) "
+        # the known finding is precisely: the STORED temperature of the column before the first ice column (the state at the start of the
+        # nucleating step) is returned; anything else is a different defect
+        XTs = r["XT"][np.nonzero(mask)[0]] if r["XT"].shape[0] == N else r["XT"]
+        XSs = XS[np.nonzero(mask)[0]] if XS.shape[0] == N else XS
+        pre = np.full(N, np.nan)
+        for row, v in enumerate(np.nonzero(mask)[0]):
+            ice = np.nonzero(XSs[row] != 0)[0]
+            if len(ice) and ice[0] > 0:
+                pre[v] = XTs[row][ice[0] - 1]
+        rep.violation("Tnuc-fromStates pre-step" if nan_eq(Tn_s, pre) else "Tnuc-fromStates", "%s: nucleationTemperatures(fromStates=True) returns the stored temperature one column before nucleation (e.g. %r) "
                       "instead of the recorded supercooled temperature (%r)" % (cfg["shape"], Tn_s[~np.isnan(Tn_s)][:1].tolist(), exp_Tn[~np.isnan(exp_Tn)][:1].tolist()),
                       dict(config=cfg))
     # counters at grid times
@@ -118,7 +127,9 @@ def accessors(rep, cfg, r, rng):
             if c0 != nuc_traj:
                 rep.violation("counter-stats-nucleated", "%s: sigmaCounter(%r, threshold=0) = %r, trajectory has %d nucleated vials" % (cfg["shape"], t, c0, nuc_traj), dict(config=cfg, time=t))
             if c1 != sol_traj:
-                rep.violation("sigmaCounter stats threshold>0", "%s: sigmaCounter(%r) (fromStates=False, solidification threshold) = %r but %d vials are solidified at that "
+                # the known finding is precisely: the count of vials whose DURATION t_solidification is <= the clock time t
+                known_wrong = int(np.sum(np.nan_to_num(st["t_solidification"], nan=np.inf) <= t + 1e-9))
+                rep.violation("sigmaCounter stats threshold>0" if int(c1) == known_wrong else "counter-stats-solidified", "%s: sigmaCounter(%r) (fromStates=False, solidification threshold) = %r but %d vials are solidified at that "
                               "time in the trajectory: the duration t_solidification is compared with clock time" % (cfg["shape"], t, c1, sol_traj), dict(config=cfg, time=t))
 
 
